@@ -22,3 +22,29 @@ Definition closed_check (g : graph) (root : N) (visited dangling : list N) : boo
 Inductive path (g : graph) (a : N) : N -> Prop :=
 | p_refl : path g a a
 | p_step b c succs : path g a b -> entry g b = Some succs -> In c succs -> path g a c.
+
+(* The same check with trie-based lookup (what the generated per-dialect theorems run; 10^3 names would make the list version
+   slow).  Proofs/DialectGraphP.v shows closed_check_fast = closed_check. *)
+From Coq Require Import FMapPositive MSetPositive.
+
+Definition key (n : N) : positive := N.succ_pos n.
+
+Fixpoint map_of (g : graph) : PositiveMap.t (list N) :=
+  match g with
+  | [] => PositiveMap.empty _
+  | (k, v) :: r => PositiveMap.add (key k) v (map_of r)     (* first occurrence wins, as `find` *)
+  end.
+
+Fixpoint set_of (l : list N) : PositiveSet.t :=
+  match l with [] => PositiveSet.empty | n :: r => PositiveSet.add (key n) (set_of r) end.
+
+Definition closed_check_fast (g : graph) (root : N) (visited dangling : list N) : bool :=
+  let m := map_of g in
+  let vs := set_of visited in
+  let ds := set_of dangling in
+  PositiveSet.mem (key root) vs
+  && forallb (fun n => match PositiveMap.find (key n) m with
+                       | Some succs => forallb (fun s => PositiveSet.mem (key s) vs) succs
+                       | None => PositiveSet.mem (key n) ds
+                       end) visited
+  && forallb (fun n => match PositiveMap.find (key n) m with None => true | Some _ => false end) dangling.
